@@ -195,6 +195,17 @@ def run(ctx, rep):
                 o_reach = set().union(*[b.reachable_from(o_, removed=err_t) for o_ in ok_t])
                 ok = errs[0][0] in e_reach and rs[0] in e_reach and fe[0] not in e_reach and fe[0] in o_reach and rs[0] not in o_reach and errs[0][0] not in o_reach \
                     and all(b.all_paths_pass(e, [rs[0]], to=okret) for e in err_t)
+        # … and that reset is unconditional: CdpRunningValidator::reset_fsm reaches the state machine's reset on every
+        # path (the machine classifies words in every check mode, so a reset limited to one mode leaves stale state)
+        rf = CRV + "reset_fsm"
+        if rf in f.fns:
+            rb = cg.body(rf)
+            inner = [bb for bb, t, cal, c in rb.calls() if cal and cal.endswith("ItsPayloadFsmContinuous::reset_fsm")]
+            rep.check(len(inner) == 1 and rb.all_paths_pass(0, inner, to=rb.return_blocks()), "R12.3", "R12.3|reset_unconditional",
+                      "reset_fsm() resets the payload state machine on every path", rf,
+                      "CdpRunningValidator::reset_fsm does not reach the state machine's reset on every path: after a skipped payload the next packet can be judged from stale state")
+        else:
+            rep.missing("R12.3", rf)
         rep.check(ok, "R12.3", "R12.3|error_path", "padding error: one Error, reset_fsm on every path, no word is checked; good payload: words checked, no reset", dp,
                   "the error/ok arms of do_payload_checks no longer have the documented shape (error sent once + FSM reset without checking words)")
         if errs:
